@@ -4,8 +4,11 @@ package main
 
 import (
 	"bytes"
+	"crypto/x509"
 	"fmt"
 	"net"
+	"os"
+	"path/filepath"
 	"reflect"
 	"time"
 
@@ -162,4 +165,99 @@ func c13Concurrent(c *ev.Ctx) {
 		}
 	}
 	c.Set("concurrent_pairs_on_one_client", n)
+}
+
+// c13PivConcurrent: two connections to one local-mode server; the first client's slot read is held INSIDE the PIV tool
+// (the fake tool waits for a release file) while the second client reads ANOTHER slot. Each client gets the certificate
+// of the slot it named; the verdict depends on the returned bytes only. Declared side pass (two connections at once).
+func c13PivConcurrent(c *ev.Ctx) {
+	d, err := os.MkdirTemp("", "verif-piv2-")
+	if err != nil {
+		c.Cap("piv concurrency side pass: " + err.Error())
+		return
+	}
+	defer os.RemoveAll(d)
+	script := "#!/bin/sh\nD='" + d + "'\nslot=none; prev=''\nfor a in \"$@\"; do [ \"$prev\" = '-s' ] && slot=\"$a\"; prev=\"$a\"; done\n" +
+		"if [ -f \"$D/hold-$slot\" ]; then : > \"$D/arrived-$slot\"; while [ ! -f \"$D/release\" ]; do sleep 0.05; done; fi\n" +
+		"cat \"$D/cert-$slot\"\nexit 0\n"
+	os.WriteFile(filepath.Join(d, "yubico-piv-tool"), []byte(script), 0o755)
+	oldPath := os.Getenv("PATH")
+	os.Setenv("PATH", d+":"+oldPath)
+	defer os.Setenv("PATH", oldPath)
+	certs := c13Certs()
+	os.WriteFile(filepath.Join(d, "cert-9a"), fix.PEMCert(certs[0].Raw), 0o644)
+	os.WriteFile(filepath.Join(d, "cert-9e"), fix.PEMCert(certs[1].Raw), 0o644)
+	for _, op := range []string{"ReadSlot", "AttestSlot"} {
+		c.Eval()
+		k := map[string]any{"piv_two_connections": op, "held": "9a", "second": "9e"}
+		os.Remove(filepath.Join(d, "release"))
+		os.Remove(filepath.Join(d, "arrived-9a"))
+		os.WriteFile(filepath.Join(d, "hold-9a"), nil, 0o644)
+		w, err := newYWorld(false)
+		if err != nil {
+			c.Violation("C13:harness:newserver", err.Error(), k)
+			return
+		}
+		saddr := fmt.Sprintf("/verif/yubi-piv2-%d", worldSeq.Add(1))
+		sp := &servedPeer{}
+		vnet.Register(saddr, func() (net.Conn, error) { return servedConn(w.srv, sp)() })
+		clA, e1 := yubiagent.NewClient(saddr)
+		clB, e2 := yubiagent.NewClient(saddr)
+		if e1 != nil || e2 != nil {
+			c.Violation("C13:harness:newclient", fmt.Sprint(e1, e2), k)
+			return
+		}
+		call := func(cl yubiagent.YubiAgent, slot string) (*x509.Certificate, error) {
+			if op == "ReadSlot" {
+				return cl.ReadSlot(slot)
+			}
+			return cl.AttestSlot(slot)
+		}
+		type res struct {
+			who  string
+			cert *x509.Certificate
+			err  error
+		}
+		out := make(chan res, 2)
+		go func() { ct, e := call(clA, "9a"); out <- res{"first client (slot 9a)", ct, e} }()
+		arrived := false
+		for i := 0; i < 600 && !arrived; i++ {
+			if _, e := os.Stat(filepath.Join(d, "arrived-9a")); e == nil {
+				arrived = true
+			} else {
+				time.Sleep(50 * time.Millisecond)
+			}
+		}
+		if !arrived {
+			os.WriteFile(filepath.Join(d, "release"), nil, 0o644)
+			c.Cap("piv concurrency side pass: the held tool run did not start within 30 s")
+		} else {
+			go func() { ct, e := call(clB, "9e"); out <- res{"second client (slot 9e)", ct, e} }()
+			time.Sleep(300 * time.Millisecond)
+			os.WriteFile(filepath.Join(d, "release"), nil, 0o644)
+			want := map[string]*x509.Certificate{"first client (slot 9a)": certs[0], "second client (slot 9e)": certs[1]}
+			for i := 0; i < 2; i++ {
+				select {
+				case r := <-out:
+					if r.err != nil || r.cert == nil || !bytes.Equal(r.cert.Raw, want[r.who].Raw) {
+						got := "no certificate"
+						if r.cert != nil && bytes.Equal(r.cert.Raw, certs[0].Raw) {
+							got = "the certificate of slot 9a"
+						} else if r.cert != nil {
+							got = "another certificate"
+						}
+						c.Violation("C13:concurrent:slot-result-of-another-request:"+op, fmt.Sprintf("%s on two connections at once, the first held inside the PIV tool: the %s received %s (err=%v)", op, r.who, got, r.err), k)
+					}
+				case <-time.After(60 * time.Second):
+					c.Violation("C13:concurrent:operations-never-complete:"+op, "a slot operation did not return within 60 s of the tool being released", k)
+					i = 2
+				}
+			}
+		}
+		os.Remove(filepath.Join(d, "hold-9a"))
+		clA.Close()
+		clB.Close()
+		vnet.Unregister(saddr)
+		vnet.Unregister(w.addr)
+	}
 }
